@@ -43,6 +43,9 @@ pub struct Workload {
     /// emulated foreign process: (resource, commit?) sessions using the raw lockfile protocol
     pub foreign: Vec<(usize, bool)>,
     pub eintr_permille: u32,
+    /// how the boundary directory is spelled: 0 canonical, 1 trailing slash, 2 trailing "/.", 3 double slash
+    #[serde(default)]
+    pub boundary_style: u8,
     pub sched: Value,
 }
 
@@ -78,7 +81,21 @@ fn actor(id: usize, sessions: Vec<Session>, w: Arc<Workload>, root: PathBuf, sh:
     for (i, s) in sessions.iter().enumerate() {
         let r = &w.resources[s.res];
         let path = res_path(&root, r);
-        let boundary = s.boundary.then(|| root.clone());
+        let boundary = s.boundary.then(|| {
+            let mut b = root.as_os_str().as_bytes().to_vec();
+            match w.boundary_style {
+                1 => b.extend_from_slice(b"/"),
+                2 => b.extend_from_slice(b"/."),
+                3 => {
+                    // double the last separator
+                    if let Some(i) = b.iter().rposition(|c| *c == b'/') {
+                        b.insert(i, b'/');
+                    }
+                }
+                _ => {}
+            }
+            PathBuf::from(OsStr::from_bytes(&b))
+        });
         let fail = match s.backoff_ms {
             None => gix_lock::acquire::Fail::Immediately,
             Some(ms) => gix_lock::acquire::Fail::AfterDurationWithBackoff(std::time::Duration::from_millis(ms)),
@@ -200,7 +217,8 @@ fn oracle(w: &Workload, root: &Path, sh: &Shared, fs: &fsx::Fsx, o: &rt::Outcome
         return;
     }
     let notes = sh.notes.lock().unwrap().clone();
-    let rel = |p: &Path| p.strip_prefix(root).map(|p| p.as_os_str().as_bytes().to_vec()).unwrap_or_default();
+    let fsroot = root.parent().unwrap_or(root);
+    let rel = |p: &Path| p.strip_prefix(fsroot).map(|p| p.as_os_str().as_bytes().to_vec()).unwrap_or_default();
     // (2) naming: the reported lock path is resource + ".lock", the resource path is the resource
     for n in &notes {
         if let Some(rest) = n.split(" acquired ").nth(1) {
@@ -293,7 +311,7 @@ fn oracle(w: &Workload, root: &Path, sh: &Shared, fs: &fsx::Fsx, o: &rt::Outcome
     // (5) leftovers: no lock files, no directory that did not exist before and holds nothing
     let mut files = BTreeSet::new();
     let mut dirs = BTreeSet::new();
-    walk(root, root, &mut files, &mut dirs);
+    walk(fsroot, root, &mut files, &mut dirs);
     let resource_files: BTreeSet<Vec<u8>> = w.resources.iter().map(|r| rel(&res_path(root, r))).collect();
     for f in &files {
         if !resource_files.contains(f) && (f.ends_with(b".lock") || f.ends_with(b".lock.next")) {
@@ -307,7 +325,7 @@ fn oracle(w: &Workload, root: &Path, sh: &Shared, fs: &fsx::Fsx, o: &rt::Outcome
         .filter(|r| r.dir_exists)
         .flat_map(|r| {
             let mut v = vec![];
-            let mut p = PathBuf::new();
+            let mut p = PathBuf::from("b");
             for d in &r.dirs {
                 p.push(OsStr::from_bytes(&unhex(d)));
                 v.push(p.as_os_str().as_bytes().to_vec());
@@ -403,7 +421,7 @@ fn generate(seed: u64) -> Workload {
             foreign.push((r.usize_below(nres), r.chance(500)));
         }
     }
-    Workload { resources, actors, foreign, eintr_permille: *sw.pick(&[0u32, 0, 100]), sched: super::swarm_policy_edges(&mut sw, 300, 4000) }
+    Workload { resources, actors, foreign, eintr_permille: *sw.pick(&[0u32, 0, 100]), boundary_style: *r.pick(&[0u8, 0, 1, 2, 3]), sched: super::swarm_policy_edges(&mut sw, 300, 4000) }
 }
 
 impl Scenario for Locks {
@@ -431,7 +449,9 @@ impl Scenario for Locks {
                 return rep;
             }
         };
-        let root = ctx.sandbox.join("live");
+        let live = ctx.sandbox.join("live");
+        // everything happens below the boundary directory live/b, which holds nothing else: it must survive
+        let root = live.join("b");
         std::fs::create_dir_all(&root).unwrap();
         let mut mtimes0 = BTreeMap::new();
         for (i, r) in w.resources.iter().enumerate() {
@@ -448,7 +468,7 @@ impl Scenario for Locks {
                 mtimes0.insert(i, (ts.tv_sec, ts.tv_nsec));
             }
         }
-        fsx::configure(fsx::FsCfg { root: root.to_string_lossy().into_owned(), stamp: true, eintr_permille: w.eintr_permille, ..Default::default() });
+        fsx::configure(fsx::FsCfg { root: live.to_string_lossy().into_owned(), stamp: true, eintr_permille: w.eintr_permille, ..Default::default() });
         let mut cfg = ctx.rt_cfg();
         super::apply_swarm(&mut cfg, wv);
         cfg.max_steps = 300_000;
@@ -471,6 +491,9 @@ impl Scenario for Locks {
         });
         let fs = fsx::take().unwrap();
         rep.absorb_outcome(&o);
+        if !root.is_dir() || !live.is_dir() {
+            rep.violate(P, format!("locks boundary-directory-removed style={}", w.boundary_style), format!("the boundary directory {} itself was removed", root.display()));
+        }
         oracle(&w, &root, &sh, &fs, &o, &mtimes0, &mut rep);
         let notes = sh.notes.lock().unwrap().clone();
         rep.ops = w.actors.iter().map(|a| a.len() as u64).sum::<u64>() + w.foreign.len() as u64;
